@@ -223,6 +223,9 @@ class Time:
             else (isinstance(other, np.timedelta64) and self._value == other)
         )
 
+    def __hash__(self) -> int:
+        return hash(self._value)
+
 
 Int8 = Annotated[int, "Int8"]
 UInt8 = Annotated[int, "UInt8"]
